@@ -507,7 +507,10 @@ func callSSA(i *interpreter, caller *frame, callpos token.Pos, fn *ssa.Function,
 	}
 	p.depth++
 	if p.depth > p.maxDepth {
-		panic(unwindFail{fmt.Sprintf("call depth %d exceeded in %s", p.maxDepth, fn)})
+		// Unbounded recursion is a process-killing stack overflow in Go; the
+		// native replay decides whether this is real (crash) or merely deep.
+		p.depth = 0
+		panic(targetPanic{iface{types.Typ[types.String], fmt.Sprintf("stack overflow: call depth %d exceeded in %s", p.maxDepth, fn)}})
 	}
 	defer func() { p.depth-- }()
 	p.w.funcs[fn]++
